@@ -59,6 +59,18 @@ def main():
                 rep.inconc(ob["name"], f"solver witness {w!r} does not reproduce")
         else:
             rep.inconc(ob["name"], ob["detail"])
+    # several literals in one query (engine A: value and kind of every column, all events)
+    from ..tv import gen
+    from ..tv.translate import BACKENDS
+    from .tvcheck import TVCheck, cleanup_scratch
+    tv = TVCheck("C18", a.tier, a.seed, N=3, timeout_ms=10000, want=("rows", "nofault", "schema", "twin"),
+                 bad_statuses=("illformed", "illtyped", "frontend"), raised_is_violation=True)
+    progs = []
+    for b in (BACKENDS if a.tier == "thorough" else ("atlas",)):
+        progs += gen.c18_programs(b)
+    _, tvcov, _ = tv.run(progs, a.jobs, {}, rep=rep)
+    cleanup_scratch()
+    cov["literal_interplay_programs"] = {"programs": tvcov["programs"], "statuses": tvcov["program_statuses"]}
     cov["numeric_kernel"] = "z3: int range obligation over unbounded Int; float repr language inclusion in C++ floating-literal grammar; bool exhaustive"
     cov["bounds"] = {"string_length": "0..1 quick, 0..2 thorough (3 for three positions)", "alphabet": "all of Unicode (CrossHair str)", "ints": "unbounded", "floats": "syntactic class only"}
     sys.exit(rep.finish(cov, assumptions + [
